@@ -25,6 +25,9 @@ def mag_expr(c):
         return "Magnitude<Pi>{}"
     if c["kname"] == "pow2_70":
         return "pow<70>(mag<2>())"
+    if c["kname"].startswith("pow10_"):
+        e = c["kname"][6:]
+        return "pow<%s>(mag<10>())" % (("-" + e[1:]) if e.startswith("m") else e)
     e = "mag<%sULL>()" % c["N"]
     if c["D"] != "1":
         e += " / mag<%sULL>()" % c["D"]
@@ -32,7 +35,7 @@ def mag_expr(c):
 
 
 def kid(c):
-    return "%s_%s_%s" % (c["kname"], c["N"], c["D"])
+    return c["kname"] if c["kname"] != "rat" else "%s_%s_%s" % (c["kname"], c["N"], c["D"])
 
 
 def trait_tu(cases):
